@@ -548,6 +548,8 @@ def c08_conditions(fn):
 
 
 def run(ctx):
+    from . import c15
+    c15.rule_boundary_extent(ctx)          # R15.8: boundary conditions never touch variational particles
     rule_rescale_integrator_state(ctx)
     rule_order_discriminated_members(ctx)
     rule_variational_mirror(ctx)
